@@ -251,15 +251,16 @@ def model_header(gen, basename: str) -> str:
 # ---------------------------------------------------------------------------------------------
 
 def harness(gen, info: Dict[str, Any], enc: Dict[str, Any], mapping: Dict[str, str],
-            static_asserts: bool = True, shell_ns_override: Optional[str] = None) -> str:
+            static_asserts: bool = True, shell_ns_override: Optional[str] = None,
+            shell_class: Optional[str] = None) -> str:
     """main.cc: a translation unit other than the shell's own source that constructs the
     shell, binds recorders on the user side of every exposed port and plays a script."""
     cx = Cxx(gen)
     shell = shellbuild.shell_name(enc)
     scope = info['scope']
-    shell_t = (cfqn(scope) + '::' if scope else '::') + shell
+    shell_t = (cfqn(scope) + '::' if scope else '::') + (shell_class or shell)
     if shell_ns_override is not None:
-        shell_t = shell_ns_override + shell
+        shell_t = shell_ns_override + (shell_class or shell)
     comp_t = cfqn(info['fqn'])
     sf_ns = cfqn((enc.get('prefix') or []) + ['Dzn'])
     mc = enc.get('multiclient')
